@@ -48,6 +48,7 @@ def export(rep, prog):
     f = prog.method('pgpy.pgp', 'PGPKey', '__bytearray__')
     rep.saw(fn=f)
     want = ['KEY', 'KEYSIGS', 'UIDS', 'SUBKEYS']
+    me = f.params[0]
     for s in Interp(prog, Scenario(inline=noinline)).run(f):
         its = merge_consts(s.ret.items) if isinstance(s.ret, Bytes) else None
         if its is None:
@@ -56,13 +57,13 @@ def export(rep, prog):
         sites = []          # (bound variable, filter conditions, key level?, collection text)
         unfiltered = []     # (what, filter conditions) of the collections nothing may be dropped from
         for it in its:
-            if it[0] == 'SYM' and it[1] == 'self._key.__bytearray__()':
+            if it[0] == 'SYM' and it[1] == '%s._key.__bytearray__()' % me:
                 kinds.append('KEY')
             elif it[0] == 'EACH':
                 var, coll, body = it[1], it[2], it[3]
                 base, conds = split_filter(coll)
                 btxt = ' '.join(render_item(b) for b in body)
-                if base == 'self._uids':
+                if base == '%s._uids' % me:
                     kinds.append('UIDS')
                     unfiltered.append(('user ids', conds))
                     inner = [b for b in body if b[0] == 'EACH']
@@ -76,13 +77,13 @@ def export(rep, prog):
                                   'the signatures after a user id must be that user id\'s signatures', where=f.where)
                         if ok:
                             sites.append((b[1], iconds, False, b[2]))
-                elif base in ('self._children.values()', 'self._children.items()', 'self.subkeys.values()', 'self.subkeys.items()'):
+                elif base in ['%s.%s' % (me, x) for x in ('_children.values()', '_children.items()', 'subkeys.values()', 'subkeys.items()')]:
                     kinds.append('SUBKEYS')
                     unfiltered.append(('subkeys', conds))
                     elem = _second(var) if base.endswith('.items()') else var
                     rep.check(_one_packet(body, '%s.__bytearray__()' % elem), 'C14.1', 'PGPKey.__bytearray__', 'subkey block %s' % btxt,
                               'subkeys are exported through the same method (packet, then its signatures)', where=f.where)
-                elif base == 'self._signatures' and _one_packet(body, '%s.__bytearray__()' % var):
+                elif base == '%s._signatures' % me and _one_packet(body, '%s.__bytearray__()' % var):
                     kinds.append('KEYSIGS')
                     sites.append((var, conds, True, coll))
                 else:
@@ -250,6 +251,7 @@ def grouping(rep, prog):
     f = prog.method('pgpy.pgp', 'PGPKey', 'parse')
     rep.saw(fn=f)
     where = f.where
+    me = f.params[0]
     outs, recs = observe(prog, f)
     gb = []
     for s in outs:
@@ -308,8 +310,8 @@ def grouping(rep, prog):
                 if m1:
                     return any(n in mro[head] for n in re.findall(r'[A-Za-z_]\w*', m1.group(1)))
                 return None
-            _, rs = observe(prog, f, oracle=oracle, bind={'self._key': Const(None) if first else Sym('self._key', nonnull=True)})
-            H = '(%s | next(%s))' % ('PGPUID()' if kind == 'uid' else 'self' if first else 'PGPKey()', G)
+            _, rs = observe(prog, f, oracle=oracle, bind={'%s._key' % me: Const(None) if first else Sym('%s._key' % me, nonnull=True)})
+            H = '(%s | next(%s))' % ('PGPUID()' if kind == 'uid' else me if first else 'PGPKey()', G)
             scen = '%s%s' % (head, ' (first key)' if first else '')
             # signatures of the group
             inner = [r for r in rs if r.coll == G]
